@@ -1438,18 +1438,20 @@ def longitude_continuity(coordinates, region):
     _check_geographic_region([w, e, s, n])
     # Check if region is defined all around the globe
     all_globe = np.allclose(abs(e - w), 360)
+    # Eastward angular width of the region (must be preserved)
+    width = (e - w) % 360
     # Move coordinates to [0, 360)
     interval_360 = True
     w = w % 360
-    e = e % 360
+    e = w + width
     # Move west=0 and east=360 if region longitudes goes all around the globe
     if all_globe:
         w, e = 0, 360
     # Check if the [-180, 180) interval is better suited
-    if w > e:
+    if e > 360:
         interval_360 = False
-        e = ((e + 180) % 360) - 180
-        w = ((w + 180) % 360) - 180
+        e = e - 360
+        w = w - 360
     region = np.array(region)
     region[:2] = w, e
     # Modify extra coordinates if passed
